@@ -271,6 +271,10 @@ func runC04(c *Ctx) {
 	c.Rule("R04.12", "E5", "the controller-facing read-modify-write operations (Modify, Teardown, AddFinalizer, RemoveFinalizer …) read what they decide on from the live state, never from the lagging read cache: success means the mutation was applied to the then-current value", 10)
 	liveStateRules(c, "R04.12")
 
+	// ---------- R04.14 (shared with C03 R03.6)
+	c.Rule("R04.14", "E3", "the Get+Update fallback of Teardown is one read-modify-write: marked through UpdateWithConflicts with the owner option, and the ready flag is Finalizers().Empty() of the value the committed update returned — never of the first Get, which a concurrent AddFinalizer may have overtaken (ready=true with a pending finalizer is explained by no serial order)", 5)
+	teardownRule(c, "R04.14")
+
 	// ---------- R04.13 (shared with C08 R08.8)
 	c.Rule("R04.13", "E1", "controller-facing RMW operations report success only after the owned state's operation ran: there is no fast path that answers for the state", 8)
 	delegateBeforeSuccess(c, "R04.13")
